@@ -37,9 +37,12 @@ Local Open Scope nat_scope.
    1. the skiplist iterator under the memtable cursor *)
 
 Inductive gpos := GHead | GAt (e : entry) | GEnd.   (* node == head sentinel | a node | null *)
+(* the nodes of the list as the iterator finds them at its next call, in list order, and the
+   node it stands on *)
+Record gstate := mkG { g_tab : list entry; g_pos : gpos }.
 
 Section G.
-Variable tab : list entry.     (* the nodes of the list NOW, in list order *)
+Variable tab : list entry.
 
 (* node_ptr::get_next(node, 0) *)
 Definition g_succ (e : entry) : gpos :=
@@ -59,19 +62,19 @@ Definition g_prev (p : gpos) : gpos :=
   match p with GEnd => g_back | GHead => GHead | GAt e => g_pred e end.
 Definition g_next (p : gpos) : gpos :=
   match p with GEnd => GEnd | GHead => g_front | GAt e => g_succ e end.
+End G.
 Definition g_kv (p : gpos) : option entry := match p with GAt e => Some e | _ => None end.
 
-Definition gcur : cursor gpos := {|
-  c_first := fun _ => g_front;
-  c_last := fun _ => GEnd;
-  c_seek := fun k _ => g_seekpos k;
-  c_prev := g_prev;
-  c_next := g_next;
-  c_kv := g_kv;
+Definition gcur : cursor gstate := {|
+  c_first := fun s => mkG (g_tab s) (g_front (g_tab s));
+  c_last := fun s => mkG (g_tab s) GEnd;
+  c_seek := fun k s => mkG (g_tab s) (g_seekpos (g_tab s) k);
+  c_prev := fun s => mkG (g_tab s) (g_prev (g_tab s) (g_pos s));
+  c_next := fun s => mkG (g_tab s) (g_next (g_tab s) (g_pos s));
+  c_kv := fun s => g_kv (g_pos s);
   c_fail := fun _ => None |}.
-End G.
 (* SkipList::iter(): node = null *)
-Definition g_new : gpos := GEnd.
+Definition g_new (l : list entry) : gstate := mkG l GEnd.
 
 (* ------------------------------------------------------------------------------------------
    2. LazyCursor with a count of establish_cursor() calls *)
@@ -96,7 +99,7 @@ Definition lz_new : lzstate := mkLz l_new 0.
    3. the state of a scan cursor: a tree mirroring the nesting of `Box<dyn Cursor>` *)
 
 Inductive xst :=
-| XG (mid : N) (p : gpos)                         (* wrapper over the skiplist of memtable mid *)
+| XG (mid : N) (g : gstate)                       (* wrapper over the skiplist of memtable mid *)
 | XL (fid : N) (mk : tstate) (s : lzstate)        (* lazy cursor over sst fid *)
 | XM (s : mstate xst)
 | XC (s : kstate xst)
@@ -104,12 +107,11 @@ Inductive xst :=
 | XP (t : N) (s : pstate xst).
 
 Section X.
-Variable look : N -> list entry.   (* the node list of every memtable, now *)
 Variable fuel : nat.               (* bound of the models' loops *)
 
 Definition xstep1 (child : cursor xst) (o : op) (u : xst) : xst :=
   match u with
-  | XG m p => XG m (step (gcur (look m)) o p)
+  | XG m g => XG m (step gcur o g)
   | XL f mk s => XL f mk (step (lazyx mk) o s)
   | XM s => XM (step (merging child) o s)
   | XC s => XC (step (concat_cursor child) o s)
@@ -118,7 +120,7 @@ Definition xstep1 (child : cursor xst) (o : op) (u : xst) : xst :=
   end.
 Definition xkv1 (child : cursor xst) (u : xst) : option entry :=
   match u with
-  | XG m p => g_kv p
+  | XG m g => g_kv (g_pos g)
   | XL f mk s => c_kv (lazyx mk) s
   | XM s => c_kv (merging child) s
   | XC s => c_kv (concat_cursor child) s
@@ -167,8 +169,8 @@ Definition lazy_leaf (f : file) : xst := XL (f_id f) (t_new (f_ents f)) lz_new.
 
 (* MemTable::range_scan: BoundsCursor::new(SkipListIteratorWrapper{ skiplist.iter() }, lo, hi);
    then range_scan calls mem_scan.seek_to_first() once more *)
-Definition mem_leaf (lo hi : bound) (mid : N) : xst :=
-  c_first (xcur 1) (XB lo hi (b_new (xcur 0) lo hi (XG mid g_new))).
+Definition mem_leaf (lo hi : bound) (ml : N * list entry) : xst :=
+  c_first (xcur 1) (XB lo hi (b_new (xcur 0) lo hi (XG (fst ml) (g_new (snd ml))))).
 
 (* Version::range_scan *)
 Definition version_scan (lo hi : bound) (v : list (list file)) : xst :=
@@ -182,7 +184,7 @@ Definition version_scan (lo hi : bound) (v : list (list file)) : xst :=
   XM (m_new (xcur 1) (l0 ++ deeper)).
 
 (* KeyValueStore::range_scan *)
-Definition scan_new (lo hi : bound) (t : N) (mems : list N) (v : list (list file)) : xst :=
+Definition scan_new (lo hi : bound) (t : N) (mems : list (N * list entry)) (v : list (list file)) : xst :=
   let kids := map (mem_leaf lo hi) mems ++ [version_scan lo hi v] in
   XB lo hi (b_new (xcur 4) lo hi (XP t (p_new (xcur 3) (XM (m_new (xcur 2) kids))))).
 
@@ -190,6 +192,17 @@ Definition scan_depth : nat := 5.
 Definition scan_step (o : op) (x : xst) : xst := step (xcur scan_depth) o x.
 Definition scan_obs (x : xst) : obs := observe (xcur scan_depth) x.
 End X.
+
+(* the skiplist grows under its iterators: before every call the wrappers see the list as it is now *)
+Fixpoint xrefresh (look : N -> list entry) (u : xst) : xst :=
+  match u with
+  | XG m g => XG m (mkG (look m) (g_pos g))
+  | XL f mk s => XL f mk s
+  | XM (mkM fwd kids) => XM (mkM fwd (map (xrefresh look) kids))
+  | XC (mkK kids pos fl) => XC (mkK (map (xrefresh look) kids) pos fl)
+  | XB lo hi (mkB cur pos fl) => XB lo hi (mkB (xrefresh look cur) pos fl)
+  | XP t (mkP cur sk fl) => XP t (mkP (xrefresh look cur) sk fl)
+  end.
 
 (* ---- what a state holds and has done: (file id, establish count, handle held now) per lazy
         leaf; the memtables it iterates *)
@@ -237,7 +250,9 @@ Definition handles (u : xst) : list N :=
 Record cfg := mkCfg {
   cf_iter_owns : bool;   (* 41f488d: a SkipListIterator shares ownership of the nodes *)
   cf_holds_ver : bool;   (* F5 repair: the scan cursor owns its VersionRef *)
-  cf_cache : bool        (* the sst cache keeps what was opened (false: --sst-cache-bytes 0) *)
+  cf_cache : bool;       (* the sst cache keeps what was opened (false: --sst-cache-bytes 0) *)
+  cf_fuel : nat          (* bound of the models' loops; the theorems ask for enough of it and show
+                            that no loop ever runs out *)
 }.
 
 Record memt := mkMT {
@@ -388,9 +403,6 @@ Definition openable (s : machine) (f : N) : bool :=
   existsb (N.eqb f) (ms_cache s) || existsb (N.eqb f) (all_handles s) ||
   match find_disk s f with Some d => d_sst d | None => false end.
 
-Definition scan_fuel (s : machine) (x : xst) : nat :=
-  Datatypes.S (Datatypes.S (xsize x + fold_right (fun m a => length (look_of s m) + a) 0 (xmems x))).
-
 Inductive event :=
 | EWrite (b : list (key * option value))   (* a write batch completes (keys distinct) *)
 | ERollover                                (* the memtable thread swaps in a new memtable *)
@@ -438,17 +450,14 @@ Definition do_flushdone (c : cfg) (fid m : N) (s : machine) : machine :=
 
 (* KeyValueStore::range_scan *)
 Definition open_mems (s : machine) : list N := ms_mem s :: match ms_imm s with Some m => [m] | None => [] end.
-Definition open_fuel (s : machine) : nat :=
-  Datatypes.S (Datatypes.S (length (concat (map f_ents (concat (cur_levels s)))) +
-                            fold_right (fun m a => length (look_of s m) + a) 0 (open_mems s))).
 Definition do_open (c : cfg) (cid : N) (lo hi : bound) (s : machine) : machine * outcome :=
   let t := ms_vis s in
   let mems := open_mems s in
   let v := ms_cur s in
   let s := take_snapshot s in
   let s := fold_left (fun s m => upd_mt mt_add_iter m s) mems s in
-  let fuel := open_fuel s in
-  let x := scan_new (look_of s) fuel lo hi t mems (cur_levels s) in
+  let fuel := cf_fuel c in
+  let x := scan_new fuel lo hi t (map (fun m => (m, look_of s m)) mems) (cur_levels s) in
   let opened := opened_between (XM (mkM true [])) x in
   if freed_any s mems then (s, OErr UAF)
   else if negb (forallb (openable s) opened) then (s, OErr ENOENT)
@@ -457,7 +466,7 @@ Definition do_open (c : cfg) (cid : N) (lo hi : bound) (s : machine) : machine *
     let s := set_scans s (ms_scans s ++ [mkScan cid t mems v (cf_holds_ver c) x]) in
     (* pre-repair: the VersionRef is a local of range_scan and drops when it returns *)
     let s := if cf_holds_ver c then s else vref_drop v s in
-    (s, OObs (scan_obs (look_of s) fuel x)).
+    (s, OObs (scan_obs fuel x)).
 
 (* one call on a held cursor *)
 Definition put_scan (cid : N) (sc : scan) (x' : xst) (s : machine) : machine :=
@@ -465,16 +474,16 @@ Definition put_scan (cid : N) (sc : scan) (x' : xst) (s : machine) : machine :=
                              then mkScan cid (sc_t sc) (sc_mems sc) (sc_ver sc) (sc_holds sc) x' else y) (ms_scans s)).
 Definition do_step (c : cfg) (cid : N) (sc : scan) (o : op) (s : machine) : machine * outcome :=
   let x := sc_x sc in
-  let fuel := scan_fuel s x in
+  let fuel := cf_fuel c in
   if freed_any s (xmems x) then (s, OErr UAF)
   else
-    let x' := scan_step (look_of s) fuel o x in
+    let x' := scan_step fuel o (xrefresh (look_of s) x) in
     let opened := opened_between x x' in
     if negb (forallb (openable s) opened) then (s, OErr ENOENT)
     else
       let s := if cf_cache c then set_cache s (opened ++ ms_cache s) else s in
       let s := put_scan cid sc x' s in
-      (s, OObs (scan_obs (look_of s) fuel x')).
+      (s, OObs (scan_obs fuel x')).
 
 (* dropping a cursor: fields drop in order: the inner cursor (lazies: handles; wrappers:
    iterators), then the VersionRef *)
